@@ -11,7 +11,6 @@ import (
 	"fmt"
 	"runtime"
 	"sync"
-	"sync/atomic"
 	"testing"
 
 	"pgregory.net/rapid"
@@ -31,10 +30,11 @@ type c09Case struct {
 	Cold bool `json:"cold,omitempty"`
 }
 
-var c09TraceHits int64
 
 func c09TraceConfig(k int) *TraceConfiguration {
-	tr := func(f string, args ...interface{}) { atomic.AddInt64(&c09TraceHits, 1) }
+	// The tracer must not synchronise the goroutines with each other (an atomic counter or a mutex in here creates
+	// happens-before edges that hide races in the code under test from the detector): it does nothing at all.
+	tr := func(f string, args ...interface{}) {}
 	switch k % 4 {
 	case 1:
 		return &TraceConfiguration{TracePhases: "", TraceLicenses: "*", Tracer: tr}
@@ -42,6 +42,9 @@ func c09TraceConfig(k int) *TraceConfiguration {
 		return &TraceConfiguration{TracePhases: "tokenize", TraceLicenses: "License/*,Header/A*", Tracer: tr}
 	case 3:
 		return &TraceConfiguration{TracePhases: "tokenize,frequency", TraceLicenses: "License/MIT/*,Header/*,Supplement/*", Tracer: tr}
+	}
+	if k%8 == 0 {
+		return &TraceConfiguration{TracePhases: "*", TraceLicenses: "*", Tracer: tr}
 	}
 	return &TraceConfiguration{TracePhases: "tokenize", TraceLicenses: "License/MIT/license.txt", Tracer: tr}
 }
